@@ -63,7 +63,24 @@ def gen(rng, tier):
                                                allow_bytes=True),
                         'ret': gen_payload(rng, depth, allow_bytes=True)})
         return out
-    return {'cfg': cfg, 'names': names, 'c2s': msgs(), 's2c': msgs()}
+    case = {'cfg': cfg, 'names': names, 'c2s': msgs(), 's2c': msgs()}
+    if rng.random() < 0.05:
+        # one more message at the very end whose payload contains a dict that
+        # IS a placeholder on the wire ({'_placeholder': truthy, 'num': n})
+        # next to a bytes value: see the known finding
+        look = {'_placeholder': rng.choice([True, 1, 'yes']),
+                'num': rng.choice([0, 0, 1, 7, -1, 'n'])}
+        pl = rng.choice([
+            {'blob': b'\x00\x01bin', 'meta': look},
+            [look, b'xyz'],
+            (b'first', look),
+            {'k': [b'a', b'b'], 'v': {'inner': look}},
+        ])
+        case['lookalike'] = {'dir': rng.choice(['c2s', 's2c']),
+                             'kind': rng.choice(['emit', 'emit_cb']),
+                             'ns': rng.choice(nss), 'event': names[0],
+                             'payload': pl, 'ret': None}
+    return case
 
 
 def sample(case):
@@ -210,24 +227,43 @@ def _run(case, cfg, w):
         return w.call(a_run if is_async else t_run_safe,
                       _label=('sender', direction))
 
-    for direction in ('c2s', 's2c'):
-        msgs = case[direction]
+    phases = [(d, case[d], v.add) for d in ('c2s', 's2c')]
+    look = case.get('lookalike')
+    look_mark = [None, 0]
+
+    def add_look(clause, detail, qual=''):
+        # violations of the extra phase: the known placeholder ambiguity of
+        # the default (JSON) encoding; with msgpack bytes travel in-band and
+        # nothing may go wrong
+        if cfg['msgpack']:
+            v.add(clause, detail, qual)
+        else:
+            v.add('placeholder_lookalike', detail, clause)
+    if look:
+        phases.append((look['dir'], [look], add_look))
+    for direction, msgs, vadd in phases:
         recv = 's' if direction == 'c2s' else 'c'
         counters[recv] = 0
+        rets[recv].clear()
+        results[direction] = []
+        if vadd is add_look:
+            look_mark[0] = rec.seq
+            look_mark[1] = len(w.kernel.thread_errors) \
+                if w.mode == 'thread' else 0
         n0 = rec.seq
         hs = sender(direction, msgs)
         w.settle(horizon=1.0)
         w.advance(1.0)
         if not hs.done:
-            v.add('sender_stuck', direction)
+            vadd('sender_stuck', direction)
         if hs.exc is not None:
-            v.add('sender_raised', '%s: %r' % (direction, hs.exc),
+            vadd('sender_raised', '%s: %r' % (direction, hs.exc),
                   type(hs.exc).__name__)
         inv = [e for e in rec.events if e['seq'] > n0
                and e['kind'] == 'h_enter' and e['label'][0] == recv
                and e['label'][3] not in ('connect', 'disconnect')]
         if len(inv) != len(msgs):
-            v.add('invocation_count', '%s: %d messages sent, %d handler '
+            vadd('invocation_count', '%s: %d messages sent, %d handler '
                   'invocations at the receiver' % (direction, len(msgs),
                                                    len(inv)),
                   'less' if len(inv) < len(msgs) else 'more')
@@ -241,53 +277,57 @@ def _run(case, cfg, w):
             if direction == 'c2s':
                 want = [sids[m['ns']]] + want
             if e['label'][2] != m['ns'] or e['label'][3] != m['event']:
-                v.add('order_or_routing', '%s message %d (%s on %s) was '
+                vadd('order_or_routing', '%s message %d (%s on %s) was '
                       'handled by %s' % (direction, i, m['event'], m['ns'],
                                          e['label']))
                 continue
             if not typed_eq(list(e['args']), want):
-                v.add('arguments', '%s message %d %s(%s): handler received '
+                vadd('arguments', '%s message %d %s(%s): handler received '
                       '%s, expected %s' % (direction, i, m['kind'],
                                            trepr(m['payload']),
                                            trepr(list(e['args'])),
                                            trepr(want)), direction)
             r = results[direction][i]
             if 'exc' in r:
-                v.add('api_raised', '%s message %d: %r' % (direction, i,
+                vadd('api_raised', '%s message %d: %r' % (direction, i,
                                                            r['exc']),
                       type(r['exc']).__name__)
                 continue
             want_ack = expect_args(m['ret'])
             if m['kind'] in ('emit_cb', 'send_cb'):
                 if 'cb' not in r:
-                    v.add('callback_missing', '%s message %d' % (direction,
+                    vadd('callback_missing', '%s message %d' % (direction,
                                                                  i))
                 elif not typed_eq(r['cb'], want_ack):
-                    v.add('callback_arguments', '%s message %d: handler '
+                    vadd('callback_arguments', '%s message %d: handler '
                           'returned %s, callback received %s, expected %s'
                           % (direction, i, trepr(m['ret']), trepr(r['cb']),
                              trepr(want_ack)), direction)
             elif m['kind'] == 'call':
                 if 'call' not in r:
-                    v.add('call_missing', '%s message %d' % (direction, i))
+                    vadd('call_missing', '%s message %d' % (direction, i))
                 else:
                     wantc = shape_call_result(want_ack)
                     if not typed_eq(r['call'][1], wantc):
-                        v.add('call_result', '%s message %d: handler '
+                        vadd('call_result', '%s message %d: handler '
                               'returned %s, call() gave %s, expected %s'
                               % (direction, i, trepr(m['ret']),
                                  trepr(r['call'][1]), trepr(wantc)),
                               direction)
     for e in rec.errors:
-        v.add('error_logged', '%s %s in %s' % (e['msg'], e.get('exc'),
-                                               e.get('site')),
-              '%s@%s' % ((e.get('exc') or e['msg']).split(':')[0][:40],
-                         e.get('site')))
+        late = look_mark[0] is not None and e['seq'] > look_mark[0]
+        (add_look if late else v.add)(
+            'error_logged', '%s %s in %s' % (e['msg'], e.get('exc'),
+                                             e.get('site')),
+            '%s@%s' % ((e.get('exc') or e['msg']).split(':')[0][:40],
+                       e.get('site')))
     if w.mode == 'thread':
         from sim.world import exc_site
-        for name, e in w.kernel.thread_errors:
-            v.add('thread_raised', '%s: %r in %s' % (name, e, exc_site(e)),
-                  '%s@%s' % (type(e).__name__, exc_site(e)))
+        for n, (name, e) in enumerate(w.kernel.thread_errors):
+            late = look_mark[0] is not None and n >= look_mark[1]
+            (add_look if late else v.add)(
+                'thread_raised', '%s: %r in %s' % (name, e, exc_site(e)),
+                '%s@%s' % (type(e).__name__, exc_site(e)))
     return {'violations': v.items, 'digest': rec.digest.hex(),
             'nontrivial': nontrivial,
             'stats': {'messages': len(case['c2s']) + len(case['s2c']),
